@@ -449,6 +449,38 @@ func predC07(e *vlib.Env, in *input, a answer) {
 
 func linkTable(e *vlib.Env, w *world, st *stats) {
 	r := vlib.NewRand(uint64(e.Seed) + 99)
+	// arrival over an external link ON the first hop of a later segment (the segment boundary
+	// lies on the inter-AS link): the hop is traversed within ONE segment, within-segment table
+	for inLT := 0; inLT <= 4; inLT++ {
+		for egLT := 0; egLT <= 4; egLT++ {
+			for cd := 0; cd < 2; cd++ {
+				sc := tableScenario(r, inLT, egLT, false, 2, 2, cd == 1, false)
+				// prepend a foreign two-hop segment
+				pre := segSpec{consDir: cd == 0, beta0: uint16(r.U64()), ts: sc.segs[0].ts}
+				for c := 0; c < 2; c++ {
+					pre.hops = append(pre.hops, hopSpec{consIn: uint16(r.Range(401, 600)), consEg: uint16(r.Range(401, 600)), exp: 63, key: randKey(r)})
+				}
+				// the local hop becomes the first hop of the second segment
+				loc := sc.segs[0]
+				lh := loc.hops[loc.cons(1)]
+				loc.hops = loc.hops[1:]
+				if !loc.consDir {
+					loc.hops = sc.segs[0].hops[:2]
+				}
+				loc.hops[loc.cons(0)] = lh
+				sc.segs = []segSpec{pre, loc}
+				sc.local, sc.currHF, sc.currINF = 2, 2, 1
+				sc.rechain()
+				sc.kind = "table/seg-start"
+				if allowedWithin[[2]int{inLT, egLT}] {
+					sc.expect = fmt.Sprintf("fwd %d ", sc.travelEg(2))
+				} else {
+					sc.expect = fmt.Sprintf("slow 4 48 %d ", sc.hopPtr(2))
+				}
+				emit(e, w, st, sc, "table-seg-start")
+			}
+		}
+	}
 	for inLT := 0; inLT <= 4; inLT++ {
 		for egLT := 0; egLT <= 4; egLT++ {
 			for xo := 0; xo < 2; xo++ {
